@@ -81,7 +81,14 @@ VAR_MUTATOR_METHODS = set(['setncattr', 'setncatts', 'delncattr', 'setunlimited'
 
 
 def is_input(src):
-    return src is not None and (src == 'self' or src.startswith('param:') or src.startswith('global:'))
+    return src is not None and not src.endswith('?') and \
+        (src == 'self' or src.startswith('param:') or src.startswith('global:'))
+
+
+def is_maybe_input(src):
+    """'param:f?' = the input on at least one path through a merge point (e.g. a loop
+    that may run zero times), a fresh file on another"""
+    return src is not None and src.endswith('?') and is_input(src[:-1])
 
 
 def vjoin(a, b):
@@ -93,10 +100,23 @@ def vjoin(a, b):
     if a == b:
         return a
     if a[0] == b[0] and a[0] == 'FILE':
+        bases = set(x.rstrip('?') for x in (a[1], b[1]) if x is not None) - set(['new'])
+        if len(bases) == 1 and is_input(list(bases)[0]):
+            return ('FILE', list(bases)[0] + '?')
         return ('FILE', '?')
     # VIEW/SAME of the same source stay VIEW (weaker of the two)
-    if a[1] == b[1] and set([a[0], b[0]]) <= set(['VIEW', 'SAME']):
-        return ('VIEW', a[1])
+    if set([a[0], b[0]]) <= set(['VIEW', 'SAME']):
+        if a[1] == b[1]:
+            return ('VIEW', a[1])
+        if a[1] is not None and b[1] is not None and a[1].rstrip('?') == b[1].rstrip('?'):
+            return ('VIEW', a[1].rstrip('?') + '?')
+        return UNK
+    # a view on one path, a fresh array on the other (e.g. a copying loop that may run zero
+    # times): "maybe view" - never alarmed as a write (R-QMUT), reported by R-ALIAS as the
+    # path on which the stored value still aliases
+    for x, y in ((a, b), (b, a)):
+        if x[0] in ('VIEW', 'SAME') and y[0] == 'FRESH' and x[1] is not None and x[1] != 'new':
+            return ('VIEW', x[1].rstrip('?') + '?')
     return UNK
 
 
@@ -120,7 +140,8 @@ class Event(object):
 
 class Prov(object):
     def __init__(self, mod, func, receiver='self', file_params=(), obj_params=(),
-                 globals_tracked=(), new_file_calls=(), file_classes=(), var_classes=()):
+                 globals_tracked=(), new_file_calls=(), file_classes=(), var_classes=(),
+                 filelist_params=()):
         """file_params: parameter names that are file objects (inputs);
         obj_params: parameters that are variable-like / array inputs;
         globals_tracked: module-level mutable containers to follow."""
@@ -157,6 +178,8 @@ class Prov(object):
                 init[n] = ('FILE', 'param:' + n)
             elif n in obj_params:
                 init[n] = ('SAME', 'param:' + n)
+            elif n in filelist_params:
+                init[n] = ('FILES', 'param:' + n)
             else:
                 init[n] = UNK
         self.init = init
@@ -249,6 +272,10 @@ class Prov(object):
             self.scan_calls(e.slice, st)
             if b[0] in ('VARS', 'DIMS'):
                 return ('SAME', b[1])
+            if b[0] == 'FILES':
+                if isinstance(e.slice, ast.Slice):
+                    return b
+                return ('FILE', b[1])
             if b[0] in ('SAME', 'VIEW'):
                 if self.basic_index(e.slice):
                     return ('VIEW', b[1])
@@ -576,6 +603,8 @@ class Prov(object):
             return st
         if fname in ('list', 'tuple', 'sorted', 'reversed') and call.args:
             return self.bind(target, call.args[0], st, node)
+        if v[0] == 'FILES':
+            return self.assign(target, ('FILE', v[1]), st, node)
         if v[0] == 'ITERITEMS' and isinstance(target, ast.Tuple) and len(target.elts) == 2:
             st = self.assign(target.elts[0], FRESH, st, node)
             return self.assign(target.elts[1], ('SAME', v[1]), st, node)
@@ -585,9 +614,27 @@ class Prov(object):
             return self.assign(target, FRESH if not isinstance(target, ast.Tuple) else UNK, st, node)
         return self.assign(target, UNK, st, node)
 
+    def cond(self, test, st):
+        """public-contract evaluation: an 'if copy:' on a boolean parameter named copy whose default
+        is True follows the default branch only (aliasing on explicit copy=False is requested)"""
+        neg = False
+        t = test
+        if isinstance(t, ast.UnaryOp) and isinstance(t.op, ast.Not):
+            neg, t = True, t.operand
+        if isinstance(t, ast.Name) and t.id == 'copy' and t.id in self.param_names:
+            a = self.func.args
+            pos = a.posonlyargs + a.args
+            dflt = dict(zip([x.arg for x in pos[len(pos) - len(a.defaults):]], a.defaults))
+            dflt.update(dict((x.arg, d) for x, d in zip(a.kwonlyargs, a.kw_defaults) if d is not None))
+            d = dflt.get('copy')
+            if isinstance(d, ast.Constant) and d.value in (True, False):
+                val = (not d.value) if neg else d.value
+                return (st, None) if val else (None, st)
+        return st, st
+
     def run(self):
         self._cur = self.func
-        w = Walker(self.transfer, vjoin, bind=self.bind)
+        w = Walker(self.transfer, vjoin, cond=self.cond, bind=self.bind)
         w.run(self.func.body, self.init)
         self.walker = w
         return self.events
